@@ -18,7 +18,7 @@ FAILURE == 1
 NoSes == [ phase |-> "none", codec |-> 0, role |-> "none", both |-> FALSE, k |-> 0, n |-> 0, len |-> 0, m |-> 0, npos |-> 0,
            payload |-> "id", H |-> <<>>, claim |-> FALSE, cbMode |-> "none",
            rcvd |-> {}, known |-> {}, done |-> FALSE, finished |-> FALSE, mlok |-> FALSE,
-           appHeld |-> {}, appMaybe |-> {}, cbs |-> {}, built |-> <<>>, everComplete |-> FALSE ]
+           appHeld |-> {}, appMaybe |-> {}, viaCb |-> {}, cbs |-> {}, built |-> <<>>, everComplete |-> FALSE ]
 
 Src(s) == 0 .. (s.k - 1)
 IsRS(s) == s.codec \in {1, 2}
@@ -38,7 +38,8 @@ WantsBuf(s, i) == s.cbMode = "buf" \/ (s.cbMode = "mix" /\ i % 2 = 0)
 
 RecvNext(s0, esi) ==
     IF IsRS(s0)
-    THEN IF s0.done THEN s0
+    THEN IF s0.done \/ esi \in s0.rcvd THEN s0        \* a duplicate is ignored (it is not a decode trigger either, which only
+                                                     \* matters after of_set_available_symbols left >= k symbols undecoded)
          ELSE LET r1 == s0.rcvd \cup {esi}
                   d1 == (Src(s0) \subseteq r1) \/ Cardinality(r1) >= s0.k
               IN  [s0 EXCEPT !.rcvd = r1, !.done = d1,
